@@ -91,7 +91,7 @@ def reversed_range(inner):
             s_ = s_['operant']
         yield s_['e']
     for e in elems(inner):
-        if e.get('k') == 'range' and e.get('lo') and e.get('hi') and ord(e['lo']['s'][0]) > ord(e['hi']['s'][0]):
+        if e.get('k') == 'range' and e.get('lo') and e.get('hi') and e['lo']['s'] and e['hi']['s'] and ord(e['lo']['s'][0]) > ord(e['hi']['s'][0]):
             return True
     return False
 
@@ -99,11 +99,15 @@ def reversed_range(inner):
 def rand_alpha_elem(rng_, chars):
     if rng_.random() < 0.5:
         while True:
-            n = rng_.randint(1, 6)
+            n = rng_.randint(1, 6) if rng_.random() > 0.03 else 0
             st = ''.join(rng_.choice(chars) for _ in range(n))
             if not is_tstring(st):
                 return G.single(G.jstr(st))
     a, b = rng_.choice(chars), rng_.choice(chars)
+    if rng_.random() < 0.03:
+        a = ''                               # an empty endpoint: must be an error, not a panic (correspondence: Err)
+    elif rng_.random() < 0.03:
+        b = ''
     r = rng_.random()
     lo = None if r < 0.08 else G.jstr(a)
     hi = None if 0.08 <= r < 0.16 else G.jstr(b)
@@ -148,14 +152,16 @@ def judge(ck, cases, results):
             aidx.append(i)
             if (c.get('_fam') == 'from' and kind == 1 and all(o == 'union' for o in c['_ops']) and not reversed_range(c['_inner'])
                     and X680.get(c['cs']) is not None and set(chars_of(c['_inner'])) <= X680[c['cs']]
-                    and not any(e == '' for e in chars_of(c['_inner']))):
+                    and '"s": ""' not in json.dumps(c['_inner'])):       # an empty string as range endpoint is not valid notation
                 if c['cs'] in ('NumericString', 'PrintableString') and 'range' in json.dumps(c['_inner']) and ck.is_known(KNOWN_ORDER):
                     ck.known_hit(KNOWN_ORDER, {'type': c['cs'], 'constraint': 'FROM (%s)' % G.t_eos(c['_inner']), 'impl': 'rejected'})
                 else:
                     ck.violation('impl-violation', {k: v for k, v in c.items() if not k.startswith('_')}, impl=r, type=c['cs'],
                                  constraint='FROM (%s)' % G.t_eos(c['_inner']),
                                  why='a FROM constraint whose characters all belong to the X.680 alphabet of the type is rejected')
-            if c.get('_inner') is not None and kind == 0 and reversed_range(c['_inner']):
+            if c.get('_inner') is not None and kind == 0 and '"s": ""' in json.dumps(c['_inner']):
+                ck.count('degenerate:empty-string')              # outside the quantifier (strings of 1..6 characters): correspondence only
+            elif c.get('_inner') is not None and kind == 0 and reversed_range(c['_inner']):
                 ck.count('invalid-input:reversed-range')        # X.680 51.4.2: lower endpoint <= upper endpoint; correspondence only
             elif c.get('_inner') is not None and kind == 0:
                 oterms.append('(%s, %s, %s)' % (c['cs'], G.c_eos(c['_inner']), c_subsets(obs)))
